@@ -1,15 +1,15 @@
 CONSTANTS
   Codes <- Codes_cut
-  HdrSets <- Hdrs_small
+  HdrSets <- Hdrs_one
   UnitSeq <- Units
-  MaxBody = 2
+  MaxBody = 1
   Framings = {"cl", "chunked", "close"}
   Kinds = {"ok", "refuse", "garbage", "badhdr", "badcl", "badchunk"}
   CutCodes <- Codes_cut
   UpModes = {"free"}
   Requests <- Req_one
   Routes <- Routes_one
-  Entries = {"core", "handler"}
+  Entries = {"handler"}
   Timeout = 2
   Record = FALSE
   Dev = {"ChunkedTruncatedOk"}
